@@ -355,6 +355,35 @@ func c15wCheck(env *c15wEnv, x *xsched.Exec) (fs []vrt.Finding, order string) {
 	return fs, strings.Join(ord, ",")
 }
 
+// c15wScratch returns the directory of the log files.  The harness creates and
+// removes a log file per execution (hundreds of thousands of times); on the
+// ext4 root file system of the build machine (mounted with online discard and
+// shared with other jobs) a single openat/unlink was seen to stall for more
+// than a minute, which trips the explorer's watchdog.  A tmpfs directory is a
+// real file system with the same write(2)/O_APPEND semantics, so it is used
+// when there is one; otherwise t.TempDir().  The directory is private to the
+// process and removed by cleanup.
+func c15wScratch(t *testing.T) (dir string, cleanup func()) {
+	for _, base := range []string{os.Getenv("VERIF_SCRATCH"), "/dev/shm"} {
+		if base == "" {
+			continue
+		}
+		// Sweep what crashed processes left behind long ago.
+		old, _ := filepath.Glob(filepath.Join(base, "verif-c15-*"))
+		for _, o := range old {
+			if fi, serr := os.Stat(o); serr == nil && time.Since(fi.ModTime()) > 6*time.Hour {
+				_ = os.RemoveAll(o)
+			}
+		}
+		d, err := os.MkdirTemp(base, "verif-c15-")
+		if err == nil {
+			return d, func() { _ = os.RemoveAll(d) }
+		}
+	}
+
+	return t.TempDir(), func() {}
+}
+
 type c15wCase struct {
 	Scenario int   `json:"scenario"`
 	Choices  []int `json:"choices"`
@@ -362,7 +391,9 @@ type c15wCase struct {
 
 func TestVerifC15File(t *testing.T) {
 	r := vrt.Start("C15")
-	c15wDir = t.TempDir()
+	var cleanup func()
+	c15wDir, cleanup = c15wScratch(t)
+	defer cleanup()
 	// The buffer pool is a sync.Pool: a collection in the middle of an
 	// execution would empty it and hide a reuse.  Collections are run between
 	// executions instead.
@@ -440,5 +471,6 @@ func TestVerifC15File(t *testing.T) {
 		r.Bound("file_scenarios", strings.Join(names, " "))
 	}
 	r.Finish()
+	cleanup()
 	os.Exit(0)
 }
